@@ -22,8 +22,8 @@ CONTRACT_GROUPS = ['C10']   # icontract layer (vlib/contracts.py) active inside 
 RULE = ("case = one configuration with R x P injected sample vectors; an entry is non-trivial if its raw value x + m*s lies outside the bounds (boundary semantics exercised) "
         "- counted per boundary type; a case is non-trivial if it has such an entry; distinct key = case index")
 ASSUMPTIONS = ["variables inside the bounds"]
-REQUIRED = {"quick": {"entries_checked": 32228, "outside.NONE": 800, "outside.TRUNCATE_BOTH": 800, "outside.MIRROR_BOTH": 800, "mirror_single_reflection": 300, "relative_magnitude_entries": 2000, "evaluator_rows_checked": 3000, "with_variable_scaler": 400, "with_section_objects_used_before": 400, "mirror_symmetry_pairs": 600, "negative_relative_magnitude_variables": 150, "__nontrivial__": 400},
-            "thorough": {"entries_checked": 2161249, "outside.NONE": 30000, "outside.TRUNCATE_BOTH": 30000, "outside.MIRROR_BOTH": 30000, "mirror_single_reflection": 10000, "relative_magnitude_entries": 80000, "evaluator_rows_checked": 100000, "with_variable_scaler": 25000, "with_section_objects_used_before": 25000, "mirror_symmetry_pairs": 40000, "negative_relative_magnitude_variables": 6000, "__nontrivial__": 15000}}
+REQUIRED = {"quick": {"entries_checked": 32228, "outside.NONE": 800, "outside.TRUNCATE_BOTH": 800, "outside.MIRROR_BOTH": 800, "mirror_single_reflection": 300, "relative_magnitude_entries": 2000, "evaluator_rows_checked": 3000, "with_variable_scaler": 400, "with_section_objects_used_before": 400, "mirror_symmetry_pairs": 600, "negative_relative_magnitude_variables": 150, "with_fixed_variables": 250, "__nontrivial__": 400},
+            "thorough": {"entries_checked": 2161249, "outside.NONE": 30000, "outside.TRUNCATE_BOTH": 30000, "outside.MIRROR_BOTH": 30000, "mirror_single_reflection": 10000, "relative_magnitude_entries": 80000, "evaluator_rows_checked": 100000, "with_variable_scaler": 25000, "with_section_objects_used_before": 25000, "mirror_symmetry_pairs": 40000, "negative_relative_magnitude_variables": 6000, "with_fixed_variables": 20000, "__nontrivial__": 15000}}
 N = {"quick": 3000, "thorough": 200000}
 NAMES = {1: "NONE", 2: "TRUNCATE_BOTH", 3: "MIRROR_BOTH"}
 
@@ -93,6 +93,16 @@ def run_case(case, obs):
         for smp in spec["samplers"]:
             smp["options"]["retain"] = True if rng.random() < 0.5 else "read-only"
         obs.count("with_sampler_that_keeps_its_sample_array")
+    free = np.ones(V, dtype=bool)
+    if V > 1 and rng.random() < 0.3:
+        # some variables are fixed by a mask: they are not perturbed (their entries of the perturbed vectors are the current
+        # values), and the perturbed vectors keep their full length
+        free = rng.random(V) < 0.6
+        free[int(rng.integers(V))] = True
+        if not free.all():
+            spec["mask"] = free.tolist()
+            obs.count("with_fixed_variables")
+    eff = np.where(free, eff, 0.0)
     case["spec"] = spec
     # a variable scaler must not change what happens in the user's coordinates (magnitudes and bounds are user-domain settings)
     T = None
@@ -142,6 +152,9 @@ def run_case(case, obs):
             (gres,) = ee.calculate(xin, compute_functions=False, compute_gradients=True)
             rows = ev.calls[-1].variables.reshape(R, P, V)
         got = np.asarray(gres.evaluations.perturbed_variables)
+        if got.shape != (R, P, V):
+            obs.violation("reported_perturbed_variables_shape", got=list(got.shape), want=[R, P, V], mask=spec.get("mask"))
+            return
         if T is not None:
             got = T.variables.from_optimizer(got)      # judge in the user's coordinates
         raw = x + m * eff
